@@ -1538,7 +1538,7 @@ class SQLObject(with_metaclass(declarative.DeclarativeMeta, object)):
         if dropJoinTables:
             cls.dropJoinTables(ifExists=ifExists, connection=conn)
         for sql in extra_sql:
-            connection.query(sql)
+            conn.query(sql)
         for func in post_funcs:
             func(cls, conn)
 
